@@ -14,11 +14,11 @@ var EvilKinds = []string{
 	"foreign-same-kid", "foreign-other-kid", "foreign-no-kid", "foreign-embedded-jwk", "foreign-jku", "foreign-x5c", "foreign-rsa-same-kid",
 	"payload-swapped", "sig-bitflip", "sig-stripped", "sig-empty-segment", "two-segments", "four-segments", "five-segments", "not-base64",
 	"aud-absent", "aud-other", "aud-prefix", "aud-suffix", "aud-empty-array", "aud-other-array",
-	"nonce-absent", "nonce-other", "nonce-empty", "nonce-case",
+	"nonce-absent", "nonce-other", "nonce-empty", "nonce-case", "replay-other-sessions-token",
 }
 
 // EvilLoginOnly are grammar elements that are invalid at login only (the statement requires the nonce "at login").
-var EvilLoginOnly = map[string]bool{"nonce-absent": true, "nonce-other": true, "nonce-empty": true, "nonce-case": true}
+var EvilLoginOnly = map[string]bool{"nonce-absent": true, "nonce-other": true, "nonce-empty": true, "nonce-case": true, "replay-other-sessions-token": true}
 
 func cloneClaims(c map[string]any) map[string]any {
 	o := map[string]any{}
@@ -159,6 +159,20 @@ func (p *SimIdP) evilToken(kind string, key *Key, claims map[string]any, login *
 		} else {
 			c["nonce"] = "someone-elses-nonce"
 		}
+		return good()
+	case "replay-other-sessions-token":
+		// the identical, honestly issued and still valid ID token of ANOTHER login (same client, other nonce)
+		best := ""
+		bestSeq := -1
+		for tok, is := range p.Issued {
+			if is.Kind == "id" && is.Honest && is.Login != login.ID && is.Seq > bestSeq {
+				best, bestSeq = tok, is.Seq
+			}
+		}
+		if best != "" {
+			return best
+		}
+		c["nonce"] = "nobody-elses-nonce-yet"
 		return good()
 	case "nonce-empty":
 		c["nonce"] = ""
